@@ -395,6 +395,14 @@ func checkKinds(v int64, u uint64, useU bool) (int, string) {
 		if err != nil {
 			return n, fmt.Sprintf("lists of named integer types, value %s: %s: %v", vs, stage, err)
 		}
+		// maps in struct fields keyed by named integer types of both widths
+		coded := &zoo.Coded{ByStatus: map[zoo.Status]string{zoo.Status(v): "s", 7: "t"}, ByCode: map[zoo.Code]string{zoo.Code(v): "c", zoo.Code(v) << 33: "d"}, U: uint64(v) + 1<<63, V: uint(1<<63) + uint(v&0x7f)}
+		if v >= 0 {
+			coded.ByID = map[zoo.BigID]int32{zoo.BigID(v): 1, 1 << 63: 2}
+		}
+		if stage, err, _ := roundTrip(coded); err != nil {
+			return n, fmt.Sprintf("maps keyed by named integer types and unsigned fields beyond 2^63, value %s: %s: %v", vs, stage, err)
+		}
 		if msg := shortestForms(b); msg != "" {
 			return n, fmt.Sprintf("lists of named integer types, value %s: %s (bytes %s)", vs, msg, hexClip(b, 120))
 		}
@@ -479,6 +487,24 @@ func checkCrossWidth(v int32) string {
 		}
 		if !reflect.DeepEqual(out, c.want) {
 			return fmt.Sprintf("%s (%x): decoded %T %v, want %v", c.what, c.in, out, out, c.want)
+		}
+	}
+	// a number that does not fit the declared field (the peer's class declares the field wider): refused, or carried
+	// exactly - never stored as another number
+	big := int64(v)<<32 + int64(v&0xff) + 5
+	for _, fld := range []string{"i8", "i16", "i32", "u8", "u16"} {
+		in := append(append([]byte{'C', 0x09, 'I', 'n', 't', 'F', 'i', 'e', 'l', 'd', 's', 0x91, byte(len(fld))}, fld...), 0x60)
+		in = append(in, encLongRef(big)...)
+		var out interface{}
+		var err error
+		if pv, _ := guard(func() { out, err = hessian.ToObject(in, c07CrossTM) }); pv != nil || err != nil {
+			continue
+		}
+		if o, ok := out.(*zoo.IntFields); ok {
+			got := map[string]int64{"i8": int64(o.I8), "i16": int64(o.I16), "i32": int64(o.I32), "u8": int64(o.U8), "u16": int64(o.U16)}[fld]
+			if got != big {
+				return fmt.Sprintf("the long %d sent for the field %s of IntFields (%x) was accepted and stored as %d", big, fld, in, got)
+			}
 		}
 	}
 	return ""
